@@ -84,15 +84,21 @@ func VerifC17Ballots() {
 	if m == 1 {
 		vFundGas(self, 1000)
 	}
-	if m == 3 { // two registered candidates
+	lateB := vParam(3) // removal method only: candidate B registers just before step lateB (0: up front), so
+	// votes can reach the threshold for a key that is not a candidate (no effect, but the round is over)
+	regB, removedA, removedB := false, false, false
+	if m == 3 { // two candidates
 		vFundGas(candA, 10)
 		vFundGas(candB, 10)
 		vSign(candA, true)
 		ok, _ := vInvoke("neofs", "innerRingCandidateAdd", vKey("candA"))
 		vAssume(ok)
-		vSign(candB, true)
-		ok, _ = vInvoke("neofs", "innerRingCandidateAdd", vKey("candB"))
-		vAssume(ok)
+		if lateB == 0 {
+			vSign(candB, true)
+			ok, _ = vInvoke("neofs", "innerRingCandidateAdd", vKey("candB"))
+			vAssume(ok)
+			regB = true
+		}
 	}
 	cntA, cntB, lastA, lastB = 0, 0, 0, 0
 	for i := 0; i < 7; i++ {
@@ -105,11 +111,17 @@ func VerifC17Ballots() {
 		vAssume(c >= 0 && c <= n) // n = a stranger
 		if m == 3 { // a removal vote for a candidate already removed is outside this harness: the history goes
 			// on with the other candidate (what a finished removal did to the OTHER ballot shows only then)
-			if firedA > 0 {
+			if removedA {
 				vAssume(!forA)
 			}
-			if firedB > 0 {
+			if removedB {
 				vAssume(forA)
+			}
+			if lateB > 0 && s == lateB && !regB {
+				vSign(candB, true)
+				okb, _ := vInvoke("neofs", "innerRingCandidateAdd", vKey("candB"))
+				vAssume(okb)
+				regB = true
 			}
 		}
 		vAssume(gap >= 0 && gap <= 25)
@@ -146,8 +158,12 @@ func VerifC17Ballots() {
 				vCover("decision-fires")
 				if forA {
 					firedA++
+					removedA = true
 				} else {
 					firedB++
+					if regB || m != 3 {
+						removedB = true
+					}
 				}
 				switch m {
 				case 0:
@@ -183,15 +199,15 @@ func VerifC17Ballots() {
 		case 3:
 			_, r := vRead("neofs", "innerRingCandidates")
 			ln := len(r.([]struct{ k []byte }))
-			want := 2
-			if firedA > 0 {
-				want--
+			want := 0
+			if !removedA {
+				want++
 			}
-			if firedB > 0 {
-				want--
+			if regB && !removedB {
+				want++
 			}
 			vAssert(ln == want, "C17/effect-exactly-when-2n/3+1-distinct-members-voted")
-			if firedA > 0 && firedB > 0 {
+			if removedA && removedB {
 				return
 			}
 		}
